@@ -607,6 +607,7 @@ func (e *Exec) hashUF(name string, in []Value, n int) ArrayV {
 		args[i] = b.(*Term)
 	}
 	out := make(ArrayV, n)
+	var outTerms []*Term
 	for i := 0; i < n; i++ {
 		if i >= 8 && i != n-1 && !e.opts.FullBytes {
 			// hash outputs: first eight and last byte uninterpreted, the rest zero
@@ -616,9 +617,12 @@ func (e *Exec) hashUF(name string, in []Value, n int) ArrayV {
 		if len(args) == 0 {
 			out[i] = c.Var(fmt.Sprintf("%s_empty_%d", name, i), BV(8))
 		} else {
-			out[i] = c.App(fmt.Sprintf("%s_%d_b%d", name, len(args), i), BV(8), args...)
+			t := c.App(fmt.Sprintf("%s_%d_b%d", name, len(args), i), BV(8), args...)
+			out[i] = t
+			outTerms = append(outTerms, t)
 		}
 	}
+	e.injective(fmt.Sprintf("%s_%d", name, len(args)), args, outTerms)
 	return out
 }
 
@@ -684,6 +688,7 @@ func (e *Exec) hashTreeRoot(fn *ssa.Function, recv Value) Value {
 	h := fnv64(shape.String())
 	name := fmt.Sprintf("htr_%x", h)
 	out := make(ArrayV, 32)
+	var outTerms []*Term
 	for i := range out {
 		if i >= 4 && i != 31 {
 			out[i] = e.ctx.BVConst(8, 0)
@@ -692,10 +697,78 @@ func (e *Exec) hashTreeRoot(fn *ssa.Function, recv Value) Value {
 		if len(args) == 0 {
 			out[i] = e.ctx.BVConstU(8, (h>>(8*uint(i%8)))&0xff)
 		} else {
-			out[i] = e.ctx.App(fmt.Sprintf("%s_b%d", name, i), BV(8), args...)
+			t := e.ctx.App(fmt.Sprintf("%s_b%d", name, i), BV(8), args...)
+			out[i] = t
+			outTerms = append(outTerms, t)
 		}
 	}
+	e.injective(name, args, outTerms)
 	return TupleV{out, IfaceV{}}
+}
+
+// injective adds the collision-resistance axioms for a hash modelled as an
+// uninterpreted function: equal outputs of two applications imply equal inputs.
+func (e *Exec) injective(name string, args []*Term, outs []*Term) {
+	if len(args) == 0 || len(outs) == 0 {
+		return
+	}
+	c := e.ctx
+	family := name
+	if i := strings.Index(name, "_"); i > 0 {
+		family = name[:i]
+	}
+	// a hash value is never all-zero, and applications of differently shaped
+	// inputs (other UF of the same family) never collide
+	nz := c.False
+	for _, o := range outs {
+		nz = c.Or(nz, c.Not(c.Eq(o, c.BVConst(8, 0))))
+	}
+	e.assume(nz)
+	for other, apps := range e.ufApps {
+		if other == name || !strings.HasPrefix(other, family+"_") {
+			continue
+		}
+		for _, prev := range apps {
+			if len(prev.outs) != len(outs) {
+				continue
+			}
+			outEq := c.True
+			for i := range outs {
+				outEq = c.And(outEq, c.Eq(outs[i], prev.outs[i]))
+			}
+			e.assume(c.Not(outEq))
+		}
+	}
+	for _, prev := range e.ufApps[name] {
+		if len(prev.args) != len(args) {
+			continue
+		}
+		same := true
+		for i := range args {
+			if prev.args[i] != args[i] {
+				same = false
+			}
+		}
+		if same {
+			return // same application
+		}
+		outEq, argEq := c.True, c.True
+		for i := range outs {
+			outEq = c.And(outEq, c.Eq(outs[i], prev.outs[i]))
+		}
+		for i := range args {
+			if args[i].sort == prev.args[i].sort {
+				argEq = c.And(argEq, c.Eq(args[i], prev.args[i]))
+			}
+		}
+		e.assume(c.Implies(outEq, argEq))
+	}
+	e.ufApps[name] = append(e.ufApps[name], ufApp{args: args, outs: outs})
+}
+
+type ufApp struct {
+	args []*Term
+	outs []*Term
 }
 
 func fnv64(s string) uint64 {
